@@ -175,6 +175,19 @@ func canon(c *Term) (*Term, bool) {
 }
 
 // certainlyNonNil: terms that denote non-nil values by construction.
+// hasDynType: a successful type assertion (or type switch case) on x is recorded.
+func (f *Facts) hasDynType(x *Term) bool {
+	if _, ok := f.dyn[x]; ok {
+		return true
+	}
+	for k, v := range f.b {
+		if v && k.K == KTAOk && k.A[0] == x {
+			return true
+		}
+	}
+	return false
+}
+
 func certainlyNonNil(t *Term) bool {
 	switch t.K {
 	case KBox, KWrap, KFresh, KAlloc, KMake, KClosure, KFunc, KFieldAddr, KIndexAddr, KGlobal, KStruct, KArray:
@@ -290,6 +303,13 @@ func (e *Engine) evalAtom(f *Facts, a *Term) Tri {
 				return TriFalse
 			}
 			if x.K == KNil && certainlyNonNil(y) {
+				return TriFalse
+			}
+			// an interface value whose dynamic type is known holds something: it is not nil
+			if y.K == KNil && f.hasDynType(x) {
+				return TriFalse
+			}
+			if x.K == KNil && f.hasDynType(y) {
 				return TriFalse
 			}
 			// integer reasoning
